@@ -167,7 +167,8 @@ class Bank(collections.namedtuple('Bank', 'provider, paths')):
         """
         LOGGER.debug('Getting provider of %s (%d search paths)', reference, len(self.paths))
         if reference not in self.provider:
-            paths = [*self.paths, *reference.paths(self.paths)]
+            base = sorted(self.paths)  # deterministic search order (the set order depends on the string hashing)
+            paths = [*base, *reference.paths(base)]
             while reference not in self.provider and paths:
                 paths.pop().load()
         return self.provider[reference]
